@@ -36,6 +36,10 @@ func main() {
 		err = c01Main(*seed, *n, *out, self)
 	case "c01child":
 		err = c01Child(*replay)
+	case "c13race":
+		err = c13Race(*seed, *n)
+	case "c13":
+		err = c13Main(*seed, *n, *out, *repo)
 	case "c14":
 		err = c14Main(*seed, *n, *out, *repo)
 	case "c18lib":
